@@ -2,7 +2,7 @@
    Statements only; every proof is `exact <lemma>`. *)
 From Coq Require Import ZArith List Bool Lia.
 From KV.Base Require Import Consts Word.
-From KV.Fec Require Import Gf256 Codec Rs AutoTune Fec FecSpec FecProofs FecProofs2 AutoTuneProofs TuneProofs TuneTheorems.
+From KV.Fec Require Import Gf256 Codec Rs AutoTune Fec FecSpec FecProofs FecProofs2 AutoTuneProofs TuneProofs ConvProofs TuneTheorems RsProofs RsMds.
 Import ListNotations.
 Local Open Scope Z_scope.
 
@@ -79,17 +79,44 @@ Theorem c16_findperiod_complete :
 Proof. exact find_period_complete. Qed.
 Print Assumptions c16_findperiod_complete.
 
-(* CONVERGENCE, the steps (partial: see c16_converges_full below for the composed statement).
+(* CONVERGENCE (full, under the premises spelled out).  A decoder in ANY state with any accepted
+   ratio dr/pr (J: 0 < dr, 0 < pr, dr+pr <= 256, paws consistent, ring well formed - every state a
+   decoder can be in), tune flag set or clear, any group table, whose ring holds only samples of
+   the d/p sender (empty ring, or whatever earlier packets of that sender arrived, lost /
+   duplicated / reordered in any way - NOT arbitrary junk of another pattern); d+p <= 255.
+   Feed the uninterrupted in-order run of N = 258 + 2(d+p) packets with seqids s0 .. s0+N-1 typed
+   by the sender's pattern (any bodies of admissible length), from ANY start id s0 with
+   s0 + N <= 2^32 - 257 (no u32 wrap inside the run; the sender's own wrap at paws, where its ids
+   jump, must not lie inside the run).  Then decode never faulted, and afterwards the decoder has
+   exactly d/p (shardSize d+p, paws of d+p) and the tune flag is clear - from where C07 applies
+   and c16_stable keeps it so. *)
+Theorem c16_converges :
+  forall (mk : Z -> Z -> codec) (d p s0 : Z) (body : nat -> bytes) (N : nat),
+    0 < d -> 0 < p -> d + p <= 255 -> 0 <= s0 ->
+    (forall i, blen (body i) + c_fecHeaderSize <= c_mtuLimit) ->
+    s0 + Z.of_nat N <= 4294967296 - 257 ->
+  forall st : fecdec,
+    N = Z.to_nat (258 + 2 * (d + p)) ->
+    J st -> Forall (consistent d p) (at_window (d_at st)) ->
+    exists st' outs,
+      run_dec mk st (pks d p s0 body 0 N) = Ok (st', outs) /\ has_cfg st' d p /\ d_should st' = false.
+Proof. exact converges. Qed.
+Print Assumptions c16_converges.
+
+(* the run, spelled out: packet i has seqid s0+i, the sender's type for that id, and body i *)
+Theorem c16_run_is :
+  forall d p s0 body i n,
+    pks d p s0 body i n =
+    map (fun k => le32 (s0 + Z.of_nat k) ++ le16 (sender_flag d p (s0 + Z.of_nat k)) ++ body k) (seq i n).
+Proof. exact (fun d p s0 body i n => eq_refl). Qed.
+
+(* the steps the composition is made of (also usable on their own):
    (1) while the tune flag is set or the packet fails the type test, decode stores nothing and runs
        the period search on the ring that already holds the packet's sample;
    (2) on a ring holding samples of ONE d/p sender such a step either leaves the ratio and the group
        table alone or adopts exactly d/p, clears the flag and empties the table - never a wrong ratio;
-   (3) on an aligned clean window (c16_findperiod_complete) it adopts d/p (d+p <= 255).
-   Together with c16_mismatch_detected (the flag is raised within (d+p)+(dr+pr) ids),
-   c16_ring_holds_last_samples (after 258 packets the window is the run itself, and one of every
-   d+p consecutive windows is aligned) and c16_stable (d/p with the flag clear is kept for ever)
-   these give the bound 258 + 2(d+p); the composition over the run is NOT machine-checked. *)
-Theorem c16_converges_partial :
+   (3) on an aligned clean window (c16_findperiod_complete) it adopts d/p (d+p <= 255). *)
+Theorem c16_tuning_steps :
   (forall mk st pkt,
      c_fecHeaderSize <= blen pkt -> pk_seqid pkt < d_paws st ->
      d_should st || type_mismatch st (pk_seqid pkt) (pk_flag pkt) = true ->
@@ -106,23 +133,18 @@ Theorem c16_converges_partial :
      d_size st = d_data st + d_parity st -> d_paws st = paws_of (d_size st) ->
      has_cfg (dec_retune st) d p /\ d_should (dec_retune st) = false).
 Proof. exact (conj decode_tuning_step (conj retune_sound retune_complete)). Qed.
-Print Assumptions c16_converges_partial.
+Print Assumptions c16_tuning_steps.
 
-(* the composed statement (NOT proved; measured on the real decoder for every pair with d+p <= 6
-   and sampled to 255: worst case 3 packets below the bound) *)
-Definition c16_converges_full : Prop :=
-  forall (mk : Z -> Z -> codec) (d p s0 : Z) (body : nat -> bytes) (st : fecdec),
-    0 < d -> 0 < p -> d + p <= 255 ->
-    0 < d_data st -> 0 < d_parity st -> d_size st = d_data st + d_parity st -> d_size st <= 256 ->
-    d_paws st = paws_of (d_size st) ->
-    at_wf (d_at st) -> Forall (consistent d p) (at_window (d_at st)) ->
+(* what is NOT covered by c16_converges: a ring holding junk of ANOTHER pattern before the run
+   (a wrong ratio may then be adopted once before the ring is clean; measured on the real decoder:
+   the bound still held on every generated case) - kept as the open full statement *)
+Definition c16_converges_any_ring_full : Prop :=
+  forall (mk : Z -> Z -> codec) (d p s0 : Z) (body : nat -> bytes) (N : nat) (st : fecdec),
+    0 < d -> 0 < p -> d + p <= 255 -> 0 <= s0 ->
     (forall i, blen (body i) + c_fecHeaderSize <= c_mtuLimit) ->
-    let N := 258 + 2 * (d + p) in
-    0 <= s0 -> s0 + N <= paws_of (d + p) -> s0 + N <= 4294967296 - 257 ->
+    s0 + Z.of_nat N <= 4294967296 - 257 -> N = Z.to_nat (258 + 2 * (d + p)) -> J st ->
     exists st' outs,
-      run_dec mk st (map (fun i => le32 (s0 + Z.of_nat i) ++ le16 (sender_flag d p (s0 + Z.of_nat i)) ++ body i)
-                         (seq 0 (Z.to_nat N))) = Ok (st', outs) /\
-      has_cfg st' d p /\ d_should st' = false.
+      run_dec mk st (pks d p s0 body 0 N) = Ok (st', outs) /\ has_cfg st' d p /\ d_should st' = false.
 
 (* STREAM INTACT (partial).  For ANY decoder state - mismatched ratio, tuning, any table, any ring -
    (a) the session feeds the payload of every arriving data packet to the ARQ core first and
@@ -152,5 +174,16 @@ Example c16_example :
   (let t := fold_left (fun t i => at_sample t ((4 + Z.of_nat i) mod 5 <? 3) (4 + Z.of_nat i)) (seq 0 7) at_init in
    at_wf t /\ at_window t = run_pulses 3 2 4 7 /\ find_period t true = 3 /\ find_period t false = 2) /\
   (exists st, dec_new 2 1 = Some st /\ type_mismatch st 2 (sender_flag 3 2 2) = true) /\
-  matching_pkt 3 2 (le32 8 ++ le16 c_typeParity ++ [1; 2; 3]).
+  matching_pkt 3 2 (le32 8 ++ le16 c_typeParity ++ [1; 2; 3]) /\
+  (* the premises of c16_converges hold for a fresh 2/1 decoder facing a 3/2 sender from id 1000 *)
+  (exists st, dec_new 2 1 = Some st /\ J st /\ Forall (consistent 3 2) (at_window (d_at st))).
 Proof. exact c16_example_lemma. Qed.
+
+(* equal data counts: parity row i of d/p1 is parity row i of d/p2 (by computation for d <= 6,
+   p1 <= p2 <= 4, and for 10/1 vs 10/3), so a receiver with the sender's data count but another
+   parity count reconstructs genuine packets from the parity rows it knows *)
+Theorem c16_parity_rows_indep :
+  forallb (fun d => forallb (fun p2 => forallb (fun p1 => rows_prefix d p1 p2) (seq 1 p2)) (seq 1 4)) (seq 1 6) = true
+  /\ rows_prefix 10 1 3 = true.
+Proof. exact (conj rs_parity_row_indep_small rs_parity_row_indep_10). Qed.
+Print Assumptions c16_parity_rows_indep.
